@@ -4,10 +4,14 @@
 package uni
 
 //go:noinline
-func Ünïcödé_fünctiön_nämé_wïth_twö_býté_rünés_ééééééééééééééééééééé(next func()) { next() }
+func Ünïcödé_fünctiön_nämé_wïth_twö_býté_rünés_ééééééééééééééééééééé(next func()) {
+	next()
+}
 
 //go:noinline
-func 世界_三字节_函数名称_用于测试截断位置_世界世界世界世界世界世界(next func()) { next() }
+func 世界_三字节_函数名称_用于测试截断位置_世界世界世界世界世界世界(next func()) {
+	next()
+}
 
 //go:noinline
 func Mixed_é世_é世_é世_é世_é世_é世_é世_é世_é世_é世x(next func()) { next() }
